@@ -350,6 +350,33 @@ fn pipelines_policy_set(t: &mut Tape, ps: &PolicySet) {
         let _ = ents.to_dot_str();
         let _ = ents.to_json_value();
     }
+    // type-aware partial evaluation, permission queries and loader-driven authorization on whatever parsed
+    {
+        use cedar_policy::{EntityTypeName, PartialEntities, PartialEntityUid, PartialRequest, TestEntityLoader};
+        let sch = small_schema();
+        let act = EntityUid::from_str(if t.coin() { "Action::\"view\"" } else { "Action::\"edit\"" }).unwrap();
+        let p = if t.coin() { PartialEntityUid::new(EntityTypeName::from_str("A").unwrap(), None) } else { PartialEntityUid::from_concrete(EntityUid::from_str("A::\"a0\"").unwrap()) };
+        let r = if t.coin() { PartialEntityUid::new(EntityTypeName::from_str("B").unwrap(), None) } else { PartialEntityUid::from_concrete(EntityUid::from_str("B::\"b0\"").unwrap()) };
+        if let Ok(preq) = PartialRequest::new(p, act.clone(), r, if t.coin() { Some(Context::empty()) } else { None }, sch) {
+            let pents = PartialEntities::empty();
+            match ps.tpe(&preq, &pents, sch) {
+                Ok(resp) => {
+                    let _ = resp.decision();
+                    let _ = resp.policies().count();
+                    let _ = resp.policy_set();
+                    let _ = resp.residual_policies().map(|p| p.to_string()).count();
+                }
+                Err(e) => render_err(e),
+            }
+        }
+        if let Ok(rq) = Request::new(EntityUid::from_str("A::\"a0\"").unwrap(), act, EntityUid::from_str("B::\"b0\"").unwrap(), Context::empty(), Some(sch)) {
+            let ents = Entities::empty();
+            let mut loader = TestEntityLoader::new(&ents);
+            if let Err(e) = ps.is_authorized_batched(&rq, sch, &mut loader, t.below(4)) {
+                let _ = e.to_string();
+            }
+        }
+    }
     // formatter on the printed set
     if let Some(c) = ps.to_cedar() {
         if let Err(e) = cedar_policy_formatter::policies_str_to_pretty(&c, &cedar_policy_formatter::Config { line_width: *t.pick(&[1usize, 20, 80]), indent_width: *t.pick(&[0isize, 2, 7]) }) {
